@@ -60,6 +60,7 @@ type OpInst struct {
 	PadTo     int
 	Barrier   int
 	BGroup    string
+	Say       int      // -say N: print N bytes without a newline on standard output
 	Head      int      // -head N: read only the first N bytes of each input, then close it
 	TouchIn   bool     // -touchin: the command re-writes its first input in place (same bytes, new mtime), like sort -o / an index update
 	BgTail    bool     // -bg: the last part of the first output is written by a child that outlives the command
@@ -756,6 +757,8 @@ func (sh *Shell) parseOp(r *shellRun, w []string) *OpInst {
 			o.TouchIn = true
 		case "-head":
 			o.Head, _ = strconv.Atoi(need())
+		case "-say":
+			o.Say, _ = strconv.Atoi(need())
 		case "-note":
 			// (the word may be empty and vanish: empty sub-stream)
 			if i+1 < len(w) && !strings.HasPrefix(w[i+1], "-") {
@@ -887,6 +890,10 @@ func (sh *Shell) runOp(r *shellRun, w []string) (int, string) {
 			o.InData = append(o.InData, n.Data)
 		}
 		_ = idx
+	}
+	if o.Say > 0 {
+		// (a progress bar: carriage returns, never a newline)
+		r.out = append(r.out, []byte(strings.Repeat("#", o.Say))...)
 	}
 	// work
 	if o.DurNS > 0 {
